@@ -21,6 +21,37 @@ def vote(x):
     return {True: "T", False: "F", None: "N"}[x]
 
 
+def select_items(toks):
+    """[[qualifier, what], ...] of the outermost SELECT list: what = column name, "*", "FN" (a call) or "EXPR" """
+    i0 = next(k for k, t in enumerate(toks) if t["t"] == "word" and t["v"] == "SELECT" and t["d"] == 0)
+    i1 = next(k for k, t in enumerate(toks) if t["t"] == "word" and t["v"] == "FROM" and t["d"] == 0)
+    items, cur = [], []
+    for t in toks[i0 + 1:i1]:
+        if t["t"] == "punct" and t["v"] == "," and t["d"] == 0:
+            items.append(cur)
+            cur = []
+        else:
+            cur.append(t)
+    if cur:
+        items.append(cur)
+    out = []
+    for it in items:
+        v = [(t["t"], t["v"]) for t in it]
+        if v[:1] == [("punct", "*")]:
+            out.append(["", "*"])
+        elif len(v) >= 3 and v[0][0] == "id" and v[1] == ("punct", ".") and v[2] == ("punct", "*"):
+            out.append([v[0][1], "*"])
+        elif len(v) >= 3 and v[0][0] == "id" and v[1] == ("punct", ".") and v[2][0] == "id":
+            out.append([v[0][1], v[2][1]])
+        elif v and v[0][0] == "word" and len(v) > 1 and v[1] == ("punct", "("):
+            out.append(["", "FN"])
+        elif v and v[0][0] == "id":
+            out.append(["", v[0][1]])
+        else:
+            out.append(["", "EXPR"])
+    return out
+
+
 def run(tier: str) -> int:
     import pypika_tortoise as P
     from pypika_tortoise.terms import Criterion, EmptyCriterion
@@ -103,6 +134,41 @@ def run(tier: str) -> int:
             else:
                 rep.discrepancy([[kind, v["want"], e["st"]]], {"parts": what, "recorded_outcome": v["want"], "observed": e["st"], "ids": e["ids"]},
                                 what="EmptyCriterion fold differs from the recorded left-identity behaviour")
+    # 1c. select-list rules (PT_Builder!SelItem): columns after "*" / after their table's star, stars replacing columns, twins of a table
+    from harness.c11 import gen
+    rs = tlc.run("MC_SelGen", f"CONSTANTS\nMaxCalls = {2 if tier == 'quick' else 3}\nWide = {'TRUE' if tier == 'quick' else 'FALSE'}\nSrcTab <- G_SrcTab\n"
+                 "INIT Init\nNEXT Next\nINVARIANT SelSane\nINVARIANT Emit\n", workers=8, heap="4g", extra_files={"MC_SelGen.tla": gen("MC_Sel")}, timeout=1500)
+    rep.add_tlc(rs)
+    if rs.violation or not rs.ok:
+        raise core.MachineryError(f"MC_Sel: {rs.violation} (spec bug)\n{rs.raw_tail[-1200:]}")
+    sel_events, sel_meta = [], []
+    qcs = core.query_classes()
+    for d in ("generic", "mysql", "postgresql"):
+        for h in rs.json_tagged("H"):
+            env_s = execb.Env(qcs[d])
+            q, excs = env_s.run(h["hist"])
+            exc, text, items = next((e for e in excs if e), ""), "", []
+            if not exc:
+                try:
+                    text = str(q)
+                    items = select_items(lexer.lex(text, core.lex_dialect(d)))
+                except Exception as ex:  # noqa
+                    exc = type(ex).__name__
+            sel_events.append({"tid": len(sel_events), "hist": h["hist"], "exc": exc, "items": items})
+            sel_meta.append((d, h, text))
+    res_s = tlc.judge_shards("J_SelGen", "CONSTANT SrcTab <- G_SrcTab\nINIT Init\nNEXT Next\n", sel_events, shard=max(500, len(sel_events) // 8 + 1),
+                             extra_files={"J_SelGen.tla": gen("J_Sel")}, timeout=1500)
+    rep.add_tlc(res_s)
+    if sum(max(x.distinct - 1, 0) for x in res_s) != len(sel_events):
+        raise core.MachineryError("J_Sel did not consume every event")
+    for res in res_s:
+        for v in res.json_tagged("V"):
+            d, h, text = sel_meta[v["tid"]]
+            calls = ["*" if c["m"] == "selectstr" and c["name"] == "*" else "str" if c["m"] == "selectstr" else
+                     "+".join(("star:" if t["k"] == "star" else "fn" if t["k"] == "call" else "col:") + t.get("src", "") for t in c["terms"]) for c in h["hist"][2:]]
+            rep.discrepancy([["select-list", d] + calls], {"dialect": d, "calls": h["hist"][2:], "sql": text, "recorded_select_list": v["want"],
+                                                           "observed": sel_events[v["tid"]]["items"], "error": sel_events[v["tid"]]["exc"]},
+                            what="the select list differs from the recorded star / column rules")
     # 2. immutable=False on the heap model (measured tables of the query-builder scenarios), then on the real builders
     fams = catalog.families()
     scens = [(f"{fn}.{sn}", fn, sn) for fn in ("qb_generic", "qb_postgresql", "qb_mysql") for sn in ("from", "full", "upsert")]
@@ -145,10 +211,10 @@ def run(tier: str) -> int:
                         rep.discrepancy([["mutable-mode", "differs" if got != want else "copied", l1, l2]],
                                         {"family": fname, "seed": sname, "calls": [l1, l2], "default_mode": want, "mutable_mode": got, "returned_receiver": same_obj},
                                         what="immutable=False: the chain does not end in the same statement / does not return the receiver")
-    rep.traces = len(events) + n_mut
+    rep.traces = len(events) + n_mut + len(sel_events)
     rep.evaluations = rep.traces
     rep.distinct = {json.dumps(m[1], sort_keys=True) for m in meta}
-    rep.extra.update({"render_path_statements": n_paths, "is_aggregate_trees": len(trees), "empty_criterion_folds": 2 * len(folds), "mutable_mode_chains": n_mut,
+    rep.extra.update({"select_list_programs": len(sel_events), "render_path_statements": n_paths, "is_aggregate_trees": len(trees), "empty_criterion_folds": 2 * len(folds), "mutable_mode_chains": n_mut,
                       "mutable_model_states": rm.distinct})
     rep.sample({"tree": trees[0], "is_aggregate": events[0]["obs"]})
     rep.rule = ("behaviours outside the property list: is_aggregate of every tree of MC_Meta (depth <= 2 over leaves of every vote) vs PT_Meta!IsAgg; "
